@@ -1,6 +1,7 @@
 (** C15 — the two halves together: tables keyed by objects, hashed by `hash' and compared by equal?. *)
 From Coq Require Import List ZArith Bool.
-From ChibiV Require Import Common.Words Gen.C15_Consts C15.Table C15.TableProofs C15.Obj C15.ObjProofs C15.ObjEqual.
+From ChibiV Require Import Common.Words Gen.C15_Consts C15.Table C15.TableProofs C15.Obj C15.ObjProofs C15.ObjEqual C15.Graph Gen.C15_Equiv.
+From ChibiV Require C15.GraphProofs.
 Import ListNotations.
 Local Open Scope Z_scope.
 
@@ -20,4 +21,18 @@ Proof.
     apply (ObjEqual.equal_trans a b c); assumption.
   - intros [a [Wa Ia]] [b [Wb Ib]] n H. unfold okey_eq, okey_hash in *. cbn [proj1_sig] in *.
     rewrite (ObjEqual.hash_respects_equal a b (Z.of_nat n) Wa Wb Ia H). reflexivity.
+Qed.
+
+(** data with sharing and cycles whose leaves are atoms of Obj.v (well formed, inside the limits of the core
+    equal?, which is what equiv.scm calls on them): the whole (scheme base) equal? decides bisimilarity *)
+Theorem equal_on_object_graphs : forall (g : list (node obj)) res a b,
+  wfg g -> (forall l, In (NLeaf l) g -> wf l /\ inb l) -> (a < length g)%nat -> (b < length g)%nat ->
+  GraphProofs.bounded_sound equalb g res a b ->
+  (equal_top equalb g res a b = Some true <-> bisim equalb g a b) /\
+  (equal_top equalb g res a b = Some false <-> ~ bisim equalb g a b) /\
+  equal_top equalb g res a b <> None.
+Proof.
+  intros g res a b Hwf Hl Ha Hb Hs. apply GraphProofs.equal_total_correct; try assumption. split.
+  - intros l Hin. destruct (Hl l Hin). apply ObjEqual.equal_refl; assumption.
+  - intros l1 l2 l3 H1 H2 H3. destruct (Hl l1 H1), (Hl l2 H2), (Hl l3 H3). apply ObjEqual.equal_trans; assumption.
 Qed.
